@@ -33,6 +33,7 @@ import (
 	"sort"
 	"strings"
 
+	"github.com/ethereum/go-ethereum/common"
 	"github.com/ethereum/go-ethereum/crypto"
 	"github.com/ethereum/go-ethereum/rlp"
 
@@ -46,6 +47,7 @@ import (
 	"github.com/vechain/thor/v2/thor"
 	"github.com/vechain/thor/v2/trie"
 	"github.com/vechain/thor/v2/tx"
+	"github.com/vechain/thor/v2/vm"
 	"github.com/vechain/thor/v2/xenv"
 
 	"verifharness/internal/sim"
@@ -55,6 +57,13 @@ import (
 func must(err error) {
 	if err != nil {
 		panic(err)
+	}
+}
+
+// ioMust: trouble with the harness' own files is infrastructure (exit 3), never an observation on the real code
+func ioMust(err error) {
+	if err != nil {
+		harnessError("i/o: %v", err)
 	}
 }
 
@@ -91,20 +100,31 @@ type world struct {
 	poor   *ecdsa.PrivateKey
 	commit uint32 // commit counter -> trie minor versions
 	tag    byte
+	stop   uint64       // energy growth stop time of this world (MaxUint64: growth never stops)
+	benef  thor.Address // block beneficiary of the current session (role coincidences: = origin, = sponsor)
+	pos    int          // position of the current tx in its block (values written depend on it)
 }
 
 func (w *world) O() genesis.DevAccount { return w.devs[1] }
 func (w *world) D() genesis.DevAccount { return w.devs[2] }
 func (w *world) S() genesis.DevAccount { return w.devs[3] }
-func (w *world) B() thor.Address       { return w.devs[4].Address }
+func (w *world) B() thor.Address       { return w.benef }
 
 func hexOrDec(v *big.Int) *genesis.HexOrDecimal256 { return (*genesis.HexOrDecimal256)(v) }
 
 func newWorld(name string) *world {
+	// worlds: "pre" (before GALACTICA), "post" (after it), "fork" (the executed block IS the GALACTICA block: runtime.New
+	// installs the fork's contracts and precompiles), "hay" (HAYABUSA active from genesis: energy growth stopped at launch
+	// although the accounts hold VET)
 	fc := &thor.ForkConfig{}
 	fc.HAYABUSA = math.MaxUint32
-	if name == "pre" {
+	switch name {
+	case "pre":
 		fc.GALACTICA = math.MaxUint32
+	case "fork":
+		fc.GALACTICA = 1
+	case "hay":
+		fc.HAYABUSA = 0
 	}
 	devs := genesis.DevAccounts()
 	var accs []genesis.Account
@@ -144,9 +164,24 @@ func newWorld(name string) *world {
 	w := &world{name: name, fc: fc, db: db, stater: stater, repo: repo, devs: devs, tag: repo.ChainTag()}
 	w.chain = repo.NewChain(b0.Header().ID())
 	w.root0 = trie.Root{Hash: b0.Header().StateRoot(), Ver: trie.Version{Major: 0, Minor: 0}}
-	w.ctx = &xenv.BlockContext{Beneficiary: w.B(), Signer: devs[0].Address, Number: 1, Time: blockTime, GasLimit: blockGas, TotalScore: 1}
-	if name == "post" {
+	w.benef = devs[4].Address
+	w.ctx = &xenv.BlockContext{Beneficiary: w.benef, Signer: devs[0].Address, Number: 1, Time: blockTime, GasLimit: blockGas, TotalScore: 1}
+	switch name {
+	case "post", "hay":
 		w.ctx.BaseFee = new(big.Int).Mul(big.NewInt(thor.InitialBaseFee), big.NewInt(3))
+	case "fork":
+		w.ctx.BaseFee = big.NewInt(thor.InitialBaseFee)
+	}
+	w.stop = math.MaxUint64
+	if raw, err := w.stater.NewState(w.root0).GetRawStorage(builtin.Energy.Address, thor.Blake2b([]byte("growth-stop-time"))); err == nil && len(raw) > 0 {
+		var t uint64
+		must(rlp.DecodeBytes(raw, &t))
+		if t != 0 {
+			w.stop = t
+		}
+	}
+	if (name == "hay") != (w.stop != math.MaxUint64) {
+		harnessError("world %s: unexpected growth stop time %d", name, w.stop)
 	}
 	pk, err := crypto.ToECDSA(thor.Blake2b([]byte("poor origin")).Bytes())
 	must(err)
@@ -197,7 +232,7 @@ func refEnergy(a *state.Account, t, stop uint64) *big.Int {
 func (w *world) dump(root trie.Root) dump {
 	d := dump{}
 	err := sim.WalkAccounts(w.db, root, func(l *sim.Leaf) error {
-		a := &acct{Bal: new(big.Int).Set(l.Acc.Balance), Energy: refEnergy(&l.Acc, blockTime, math.MaxUint64),
+		a := &acct{Bal: new(big.Int).Set(l.Acc.Balance), Energy: refEnergy(&l.Acc, blockTime, w.stop),
 			Master: hex.EncodeToString(l.Acc.Master), Code: hex.EncodeToString(l.Acc.CodeHash), Storage: map[string]string{}}
 		if err := sim.WalkStorage(w.db, l, func(hk thor.Bytes32, _ []byte, raw []byte) error {
 			a.Storage[hex.EncodeToString(hk[:])] = hex.EncodeToString(raw)
@@ -361,8 +396,8 @@ type compiled struct {
 }
 
 func (w *world) compile(kind string, i int) compiled {
-	k := int64(1000 + 10*i) // storage key used by clause i
-	v := int64(40 + i)
+	k := int64(1000 + 10*i)        // storage key used by clause i
+	v := int64(40 + i + 100*w.pos) // later txs of a block write the SAME slots with other values
 	val := big.NewInt(int64(1000 + i))
 	energyAbi, _ := builtin.Energy.ABI.MethodByName("transfer")
 	setU := func(d dump, a thor.Address, key, value int64) { d.get(a).Storage[skey(b32(key))] = rawStorage(value) }
@@ -534,10 +569,12 @@ func (w *world) applyFacts(st *state.State, f facts, origin thor.Address) {
 		must(st.SetEnergy(addrU1, big.NewInt(1_000_000), blockTime))
 	}
 	// the block beneficiary has already been touched in this block (as after an earlier tx's reward)
-	must(st.SetEnergy(w.B(), big.NewInt(123_456_789), blockTime))
+	if w.B() != origin && w.B() != w.S().Address && w.B() != w.D().Address {
+		must(st.SetEnergy(w.B(), big.NewInt(123_456_789), blockTime))
+	}
 	b := builtin.Prototype.Native(st).Bind(addrU1)
 	if f.CreditGE {
-		must(b.SetCreditPlan(new(big.Int).Mul(big.NewInt(1000), e18), big.NewInt(1)))
+		must(b.SetCreditPlan(rich, big.NewInt(1)))
 	} else {
 		must(b.SetCreditPlan(big.NewInt(1), big.NewInt(0))) // 1 wei of credit: below any prepaid amount
 	}
@@ -567,6 +604,59 @@ func (w *world) newRuntime(root trie.Root) (*runtime.Runtime, *state.State) {
 	return runtime.New(w.chain, st, &ctx, w.fc), st
 }
 
+// gasTracer observes, from INSIDE the real transaction loop, the gas handed to each clause and the gas left after it
+// (refund applied). Only the two clause-level callbacks are used; the interpreter is not put into debug mode.
+type gasTracer struct{ ins, outs []uint64 }
+
+func (t *gasTracer) CaptureClauseStart(gasLimit uint64) { t.ins = append(t.ins, gasLimit) }
+func (t *gasTracer) CaptureClauseEnd(restGas uint64)    { t.outs = append(t.outs, restGas) }
+func (t *gasTracer) CaptureStart(*vm.EVM, common.Address, common.Address, bool, []byte, uint64, *big.Int) {
+}
+func (t *gasTracer) CaptureEnd([]byte, uint64, error) {}
+func (t *gasTracer) CaptureEnter(vm.OpCode, common.Address, common.Address, []byte, uint64, *big.Int) {
+}
+func (t *gasTracer) CaptureExit([]byte, uint64, error) {}
+func (t *gasTracer) CaptureState(uint64, vm.OpCode, uint64, uint64, *vm.Memory, *vm.Stack, *vm.Contract, []byte, int, error) {
+}
+func (t *gasTracer) CaptureFault(uint64, vm.OpCode, uint64, uint64, *vm.Memory, *vm.Stack, *vm.Contract, int, error) {
+}
+
+// session: ONE runtime over ONE state, as inside a block. Transactions run one after the other; after each the state is
+// snapshotted (Stage + Commit under a fresh trie version; the State object itself goes on unchanged).
+type session struct {
+	w    *world
+	st   *state.State
+	rt   *runtime.Runtime
+	tr   *gasTracer
+	snap trie.Root
+	dump dump
+	pos  int
+	role string
+}
+
+// open prepares the payer facts, builds the runtime (which, in the fork world, installs the fork's contracts) and takes
+// the first snapshot. role: "" | "pb" (beneficiary = origin) | "sb" (beneficiary = sponsor).
+func (w *world) open(f facts, role string) *session {
+	w.benef = w.devs[4].Address
+	switch role {
+	case "pb":
+		w.benef = w.O().Address
+	case "sb":
+		w.benef = w.S().Address
+	}
+	w.ctx.Beneficiary = w.benef
+	st0 := w.stater.NewState(w.root0)
+	w.applyFacts(st0, f, w.O().Address)
+	base := w.commitState(st0, 1)
+	rt, st := w.newRuntime(base)
+	tr := &gasTracer{}
+	rt.SetVMConfig(vm.Config{Tracer: tr})
+	s := &session{w: w, st: st, rt: rt, tr: tr, role: role}
+	s.snap = w.commitState(st, 2)
+	s.dump = w.dump(s.snap)
+	return s
+}
+
 type result struct {
 	ev      trace.Ev
 	obs     map[string]any
@@ -576,7 +666,10 @@ type result struct {
 }
 
 // run executes one scenario.
-func (w *world) run(sc *scenario, rng *rand.Rand) (res result) {
+func (s *session) run(sc *scenario, rng *rand.Rand) (res result) {
+	w := s.w
+	w.pos = s.pos
+	defer func() { s.pos++ }()
 	originKey := w.O().PrivateKey
 	origin := w.O().Address
 	n := len(sc.Kinds)
@@ -648,11 +741,9 @@ func (w *world) run(sc *scenario, rng *rand.Rand) (res result) {
 		sigok = false
 	}
 
-	// ---- pre-state
-	st := w.stater.NewState(w.root0)
-	w.applyFacts(st, sc.Facts, origin)
-	pre := w.commitState(st, 1)
-	preDump := w.dump(pre)
+	// ---- pre-state: the snapshot after the previous tx of this block
+	pre := s.snap
+	preDump := s.dump
 
 	legacyBase, err := builtin.Params.Native(w.stater.NewState(pre)).Get(thor.KeyLegacyTxBaseGasPrice)
 	must(err)
@@ -660,12 +751,13 @@ func (w *world) run(sc *scenario, rng *rand.Rand) (res result) {
 	must(err)
 
 	ev := trace.Ev{"e": "Tx", "id": sc.ID, "fam": sc.Fam, "world": w.name, "n": n, "kinds": sc.Kinds, "gas": gas, "intr": intr,
-		"limit": blockGas, "sigok": sigok, "facts": sc.Facts, "start": sc.Start,
+		"limit": blockGas, "sigok": sigok, "facts": sc.Facts, "start": sc.Start, "pos": s.pos, "role": s.role,
 		"fee": feeFields(trx, w.ctx.BaseFee, legacyBase, ratio, coef)}
 	res.ev = ev
 
 	// ---- execute on the real runtime
-	rt, stA := w.newRuntime(pre)
+	rt, stA := s.rt, s.st
+	s.tr.ins, s.tr.outs = nil, nil
 	var receipt *tx.Receipt
 	var execErr error
 	func() {
@@ -679,6 +771,7 @@ func (w *world) run(sc *scenario, rng *rand.Rand) (res result) {
 	}()
 	post := w.commitState(stA, 2)
 	postDump := w.dump(post)
+	s.snap, s.dump = post, postDump
 
 	if execErr != nil {
 		ev["started"] = false
@@ -693,52 +786,74 @@ func (w *world) run(sc *scenario, rng *rand.Rand) (res result) {
 	}
 	ev["started"] = true
 
-	// ---- raw clause outcomes on a copy, through the exported clause API
+	// ---- raw clause outcomes on a copy of the pre-state, through the exported clause API. The gas handed to each clause
+	// is the one OBSERVED inside the real loop (tracer), so the copy replays exactly what the loop did.
+	ins := append([]uint64(nil), s.tr.ins...)
+	ev["outs"] = append([]uint64{}, s.tr.outs...)
+	rawFail := func(what string, err error) {
+		ev["rawok"] = false
+		ev["rawerr"] = fmt.Sprintf("%s: %v", what, err)
+	}
+	ev["rawok"], ev["classok"] = true, true
 	rtB, stB := w.newRuntime(pre)
-	resolved, err := runtime.ResolveTransaction(trx)
-	must(err)
-	_, price, payerB, prepaid, _, err := resolved.BuyGas(stB, blockTime, w.ctx.BaseFee)
-	must(err)
-	txCtx, err := resolved.ToContext(price, payerB, w.ctx.Number, w.chain.GetBlockID)
-	must(err)
-	if txCtx.ProvedWork.Sign() != 0 {
-		wg := new(big.Int).Div(txCtx.ProvedWork, big.NewInt(1000))
-		if wg.Sign() != 0 {
-			harnessError("scenario %d has proved work; the fee rules of the spec assume none", sc.ID)
-		}
-	}
-	left := gas - intr
 	var raws []rawOut
-	for i := 0; i < n; i++ {
-		exec, _ := rtB.PrepareClause(resolved.Clauses[i], uint32(i), left, txCtx)
-		out, _, err := exec()
+	price, prepaid := new(big.Int), new(big.Int)
+	func() {
+		defer func() {
+			if e := recover(); e != nil {
+				rawFail("panic", fmt.Errorf("%v", e))
+			}
+		}()
+		resolved, err := runtime.ResolveTransaction(trx)
 		if err != nil {
-			harnessError("raw clause %d of scenario %d: %v", i, sc.ID, err)
+			rawFail("ResolveTransaction", err)
+			return
 		}
-		r := rawOut{In: left, Left: out.LeftOverGas, Ctr: out.RefundGas, Err: out.VMErr != nil}
-		if out.VMErr != nil {
-			r.What = out.VMErr.Error()
+		var payerB thor.Address
+		_, price, payerB, prepaid, _, err = resolved.BuyGas(stB, blockTime, w.ctx.BaseFee)
+		if err != nil {
+			price, prepaid = new(big.Int), new(big.Int)
+			rawFail("BuyGas on the copy", err)
+			return
 		}
-		raws = append(raws, r)
-		// the next clause starts with what the transaction loop is specified to hand over
-		used := left - out.LeftOverGas
-		refund := used / 2
-		if out.RefundGas < refund {
-			refund = out.RefundGas
+		txCtx, err := resolved.ToContext(price, payerB, w.ctx.Number, w.chain.GetBlockID)
+		if err != nil {
+			rawFail("ToContext", err)
+			return
 		}
-		left = out.LeftOverGas + refund
-		if out.VMErr != nil {
-			break
+		if new(big.Int).Div(txCtx.ProvedWork, big.NewInt(1000)).Sign() != 0 {
+			harnessError("scenario %d has proved work; the fee rules of Trace_TxExec assume none", sc.ID)
 		}
-	}
-	// the compiled kinds must behave as their class says, otherwise the harness (not thor) is wrong
+		for i := 0; i < n && i < len(ins); i++ {
+			exec, _ := rtB.PrepareClause(resolved.Clauses[i], uint32(i), ins[i], txCtx)
+			out, _, err := exec()
+			if err != nil {
+				rawFail(fmt.Sprintf("clause %d", i), err)
+				return
+			}
+			r := rawOut{In: ins[i], Left: out.LeftOverGas, Ctr: out.RefundGas, Err: out.VMErr != nil}
+			if out.VMErr != nil {
+				r.What = out.VMErr.Error()
+			}
+			raws = append(raws, r)
+			if out.VMErr != nil {
+				break
+			}
+		}
+	}()
+	// a compiled kind that does not behave as its class says (REVERT that does not fail, INVALID that leaves gas ...) is a
+	// deviation of the real EVM from what the scenario's clause is specified to do: the trace specification rejects it
 	if sc.Fam == "scn" {
 		for i, r := range raws {
 			cl := kindTable[sc.Kinds[i]].class
 			if (cl == "ok") == r.Err || (cl == "errall" && r.Left != 0) {
-				harnessError("scenario %d clause %d kind %s: raw outcome %+v does not match class %s", sc.ID, i, sc.Kinds[i], r, cl)
+				ev["classok"] = false
+				res.notes = append(res.notes, fmt.Sprintf("clause %d kind %s: raw outcome %+v does not match class %s", i, sc.Kinds[i], r, cl))
 			}
 		}
+	}
+	if raws == nil {
+		raws = []rawOut{}
 	}
 	ev["raws"] = raws
 
@@ -791,20 +906,17 @@ func (w *world) run(sc *scenario, rng *rand.Rand) (res result) {
 	got.normalize()
 	dAll := diff(wantAll, got, ex, 6)
 	dNone := diff(wantNone, got, ex, 6)
-	allFail := true // no clause has an effect function => "all" and "none" coincide; never the case for ok kinds
-	for i := 0; i < n; i++ {
-		if comp[i].apply != nil {
-			allFail = false
-		}
-	}
 	applied := "other"
 	switch {
-	case len(dAll) == 0 && (len(dNone) != 0 || allFail) && !receipt.Reverted:
+	case len(dAll) == 0 && len(dNone) == 0:
+		// the clauses have no effect on THIS pre-state (e.g. a second self-destruct of a contract an earlier tx already
+		// destroyed): "all effects" and "no effect" are the same state, the question is void
+		applied = map[bool]string{true: "none", false: "all"}[receipt.Reverted]
+		ev["voidEffects"] = true
+	case len(dAll) == 0:
 		applied = "all"
 	case len(dNone) == 0:
 		applied = "none"
-	case len(dAll) == 0:
-		applied = "all"
 	}
 	ev["applied"] = applied
 	if applied == "other" {
@@ -828,6 +940,7 @@ func (w *world) run(sc *scenario, rng *rand.Rand) (res result) {
 	}
 	signed("debit", new(big.Int).Sub(pe(ref, receipt.GasPayer), pe(got, receipt.GasPayer)))
 	signed("credit", new(big.Int).Sub(pe(got, w.B()), pe(ref, w.B())))
+	ev["pb"] = receipt.GasPayer == w.B() // payer and beneficiary coincide: one account carries -paid + reward
 	add0, sub0 := totalAddSub(w.stater.NewState(pre))
 	add1, sub1 := totalAddSub(w.stater.NewState(post))
 	signed("addd", new(big.Int).Sub(add1, add0))
@@ -851,7 +964,7 @@ func (w *world) run(sc *scenario, rng *rand.Rand) (res result) {
 			cls[i] = "errkeep"
 		}
 	}
-	res.nontriv = fmt.Sprintf("%s:%s:%s:%s:%d", w.name, sc.TxType, payerKind, strings.Join(cls, ","), n)
+	res.nontriv = fmt.Sprintf("%s:%s:%s:%s:%d:%s:%v", w.name, sc.TxType, payerKind, strings.Join(cls, ","), n, s.role, s.pos > 0)
 	return
 }
 
@@ -891,7 +1004,7 @@ func usedCredit(st *state.State, user thor.Address) *big.Int {
 
 // feeFields logs what the fee rules of the spec need: the tx's fee fields and the chain parameters.
 func feeFields(t *tx.Transaction, baseFee, legacyBase, ratio *big.Int, coef uint8) map[string]any {
-	f := map[string]any{"legacyBase": limbs(legacyBase), "ratio": limbs(ratio), "gal": baseFee != nil}
+	f := map[string]any{"legacyBase": limbs(legacyBase), "ratio": limbs(ratio), "gal": baseFee != nil, "work": []int{}, "gas": t.Gas()}
 	if baseFee != nil {
 		f["baseFee"] = limbs(baseFee)
 	} else {
@@ -1037,15 +1150,16 @@ func main() {
 	scnPath := flag.String("scn", "", "scenarios exported by TLC (json array)")
 	sweep := flag.Int("sweep", 0, "number of gas-sweep scenarios generated here")
 	doPacker := flag.Bool("packer", false, "run the packer-level checks")
+	blkPath := flag.String("blk", "", "blocks: json array of {ids, world, role}; listed scenarios run in sequence on one runtime")
 	flag.Parse()
-	must(os.MkdirAll(*out, 0o755))
+	ioMust(os.MkdirAll(*out, 0o755))
 	rng := rand.New(rand.NewSource(*seed))
 
 	var scns []*scenario
 	if *scnPath != "" {
 		b, err := os.ReadFile(*scnPath)
-		must(err)
-		must(json.Unmarshal(b, &scns))
+		ioMust(err)
+		ioMust(json.Unmarshal(b, &scns))
 	}
 	// gas sweep: a few shapes, gas from the intrinsic gas upwards in uneven steps
 	shapes := [][]string{{"store"}, {"clear"}, {"store", "clear"}, {"storeval", "nestok", "store"}, {"nest", "store"},
@@ -1075,43 +1189,94 @@ func main() {
 			Facts: f, Gas: math.MaxUint64 - extra}) // marker: resolved to intrinsic+extra below
 	}
 
-	worlds := map[string]*world{"pre": newWorld("pre"), "post": newWorld("post")}
+	worlds := map[string]*world{"pre": newWorld("pre"), "post": newWorld("post"), "fork": newWorld("fork"), "hay": newWorld("hay")}
+	// blocks: scenarios that run one after the other on ONE runtime / ONE state; everything else runs as a block of one
+	type blockSpec struct {
+		IDs   []int  `json:"ids"`
+		World string `json:"world"`
+		Role  string `json:"role"`
+	}
+	var blocks []blockSpec
+	if *blkPath != "" {
+		b, err := os.ReadFile(*blkPath)
+		ioMust(err)
+		ioMust(json.Unmarshal(b, &blocks))
+	}
+	byID := map[int]*scenario{}
+	inBlock := map[int]bool{}
+	for _, sc := range scns {
+		byID[sc.ID] = sc
+	}
+	for _, b := range blocks {
+		for _, id := range b.IDs {
+			inBlock[id] = true
+		}
+	}
+	for _, sc := range scns {
+		if inBlock[sc.ID] {
+			continue
+		}
+		// singles rotate over the worlds that admit their tx type, and over the role coincidences
+		var wn string
+		if sc.TxType == "legacy" && sc.Start != "lowprice" {
+			wn = []string{"pre", "post", "pre", "hay", "pre", "fork"}[sc.ID%6]
+		} else {
+			wn = []string{"post", "hay", "post", "fork"}[sc.ID%4]
+		}
+		role := ""
+		if sc.Fam == "scn" {
+			role = []string{"", "", "", "pb", "", "sb", ""}[sc.ID%7]
+		}
+		blocks = append(blocks, blockSpec{IDs: []int{sc.ID}, World: wn, Role: role})
+	}
+	stateFacts := func(f facts) facts { f.Delegated, f.CommonTo = false, false; return f }
 	var evs []trace.Ev
 	evs = append(evs, trace.Ev{"e": "Reset"})
 	classes := map[string]int{}
-	f3runs := 0
+	f3runs, multi := 0, 0
 	var observed []map[string]any
-	for _, sc := range scns {
-		wn := "post"
-		if sc.TxType == "legacy" && sc.ID%2 == 0 {
-			wn = "pre"
+	for bi, b := range blocks {
+		w := worlds[b.World]
+		if w == nil {
+			harnessError("block %d: unknown world %q", bi, b.World)
 		}
-		if sc.Start == "lowprice" {
-			wn = "post"
+		first := byID[b.IDs[0]]
+		ses := w.open(first.Facts, b.Role)
+		if len(b.IDs) > 1 {
+			multi++
 		}
-		w := worlds[wn]
-		if sc.Fam == "sweep" {
-			// resolve the marker: gas = intrinsic + extra
-			extra := math.MaxUint64 - sc.Gas
-			b := tx.NewBuilder(tx.TypeLegacy)
-			for i, k := range sc.Kinds {
-				b.Clause(w.compile(k, i).clause)
+		for _, id := range b.IDs {
+			sc := byID[id]
+			if sc == nil {
+				harnessError("block %d: unknown scenario %d", bi, id)
 			}
-			intr, _ := b.Build().IntrinsicGas()
-			sc.Gas = intr + extra
-		}
-		r := w.run(sc, rng)
-		if len(r.notes) > 0 {
-			r.ev["notes"] = r.notes
-		}
-		evs = append(evs, r.ev)
-		classes[r.nontriv]++
-		if r.f3 {
-			f3runs++
-		}
-		if sc.Exp != nil {
-			observed = append(observed, map[string]any{"id": sc.ID, "started": r.ev["started"], "payer": r.ev["payer"],
-				"reverted": r.ev["reverted"], "nout": r.ev["nout"], "applied": r.ev["applied"]})
+			if stateFacts(sc.Facts) != stateFacts(first.Facts) {
+				harnessError("block %d: scenario %d needs another pre-state than the block's first tx", bi, id)
+			}
+			if sc.Fam == "sweep" {
+				// resolve the marker: gas = intrinsic + extra
+				extra := math.MaxUint64 - sc.Gas
+				bld := tx.NewBuilder(tx.TypeLegacy)
+				for i, k := range sc.Kinds {
+					bld.Clause(w.compile(k, i).clause)
+				}
+				intr, _ := bld.Build().IntrinsicGas()
+				sc.Gas = intr + extra
+			}
+			r := ses.run(sc, rng)
+			r.ev["blk"] = bi
+			if len(r.notes) > 0 {
+				r.ev["notes"] = r.notes
+			}
+			evs = append(evs, r.ev)
+			classes[r.nontriv]++
+			if r.f3 {
+				f3runs++
+			}
+			if sc.Exp != nil {
+				observed = append(observed, map[string]any{"id": sc.ID, "started": r.ev["started"], "payer": r.ev["payer"],
+					"reverted": r.ev["reverted"], "nout": r.ev["nout"], "applied": r.ev["applied"]})
+			}
 		}
 	}
 	prun := 0
@@ -1122,16 +1287,16 @@ func main() {
 		e["seq"] = i
 	}
 	evs = append(evs, trace.Ev{"e": "End", "seq": len(evs), "count": len(evs)})
-	must(trace.WriteNDJSON(filepath.Join(*out, "trace.ndjson"), evs))
+	ioMust(trace.WriteNDJSON(filepath.Join(*out, "trace.ndjson"), evs))
 	ob, _ := json.Marshal(observed)
-	must(os.WriteFile(filepath.Join(*out, "observed.json"), ob, 0o644))
+	ioMust(os.WriteFile(filepath.Join(*out, "observed.json"), ob, 0o644))
 	var cls []string
 	for k := range classes {
 		cls = append(cls, k)
 	}
 	sort.Strings(cls)
-	sum := map[string]any{"txs": len(scns), "packerRuns": prun, "classes": cls, "distinct": len(cls), "f3runs": f3runs}
+	sum := map[string]any{"txs": len(scns), "packerRuns": prun, "classes": cls, "distinct": len(cls), "f3runs": f3runs, "multiTxBlocks": multi}
 	sb, _ := json.Marshal(sum)
-	must(os.WriteFile(filepath.Join(*out, "summary.json"), sb, 0o644))
+	ioMust(os.WriteFile(filepath.Join(*out, "summary.json"), sb, 0o644))
 	fmt.Println(string(sb))
 }
